@@ -524,6 +524,36 @@ class NeedCases(Exception):
         self.atoms = tuple(atoms)
 
 
+class _Closure(dict):
+    """environment of a nested function / lambda: own names first, then the enclosing frame's environment (by reference)"""
+
+    def __init__(self, outer):
+        super().__init__()
+        self.outer = outer
+
+    def __missing__(self, k):
+        return self.outer[k]
+
+    def __contains__(self, k):
+        return dict.__contains__(self, k) or k in self.outer
+
+    def get(self, k, d=None):
+        return self[k] if k in self else d
+
+
+def _is_generator(fn_node) -> bool:
+    """does the function body contain a yield of its own (nested functions / lambdas not counted)?"""
+    stack = list(fn_node.body)
+    while stack:
+        n = stack.pop()
+        if isinstance(n, (ast.Yield, ast.YieldFrom)):
+            return True
+        if isinstance(n, (ast.FunctionDef, ast.AsyncFunctionDef, ast.Lambda, ast.ClassDef)):
+            continue
+        stack.extend(ast.iter_child_nodes(n))
+    return False
+
+
 class _Ret(Exception):
     def __init__(self, v):
         self.v = v
@@ -787,7 +817,7 @@ class Interp:
         return bool(v)
 
     # ---- calling repo functions
-    def call(self, fi: FuncInfo, args: List[Any], kwargs: Dict[str, Any], bound_cls: Optional[ClassInfo] = None):
+    def call(self, fi: FuncInfo, args: List[Any], kwargs: Dict[str, Any], bound_cls: Optional[ClassInfo] = None, closure: Optional[dict] = None):
         q = fi.qualname
         if self.on_call:
             self.on_call(fi, args, kwargs)
@@ -799,18 +829,25 @@ class Interp:
             return self.opaque(f"call depth at {q}")
         a = fi.node.args
         params = [x.arg for x in a.posonlyargs + a.args]
-        env: Dict[str, Any] = {}
+        env: Dict[str, Any] = _Closure(closure) if closure is not None else {}
         if len(args) > len(params) and not a.vararg:
             raise PathRaise("TypeError", f"too many arguments for {q}")
         for p, v in zip(params, args):
             env[p] = v
+        if a.vararg:
+            env[a.vararg.arg] = tuple(args[len(params):])
+        extra_kw = {}
         for k, v in kwargs.items():
-            if k in params or a.kwarg:
+            if k in params:
                 env[k] = v
             elif k in [x.arg for x in a.kwonlyargs]:
                 env[k] = v
+            elif a.kwarg:
+                extra_kw[k] = v
             else:
                 raise PathRaise("TypeError", f"{q} got an unexpected keyword {k}")
+        if a.kwarg:
+            env[a.kwarg.arg] = extra_kw
         defaults = a.defaults
         dparams = params[len(params) - len(defaults):]
         for p, d in zip(dparams, defaults):
@@ -823,14 +860,19 @@ class Interp:
         if missing:
             raise PathRaise("TypeError", f"{q} missing {missing}")
         frame = Frame(self, fi, env, bound_cls)
+        is_gen = _is_generator(fi.node)
+        if is_gen:
+            frame.yields = []
         self.depth += 1
         try:
             frame.exec_block(fi.node.body)
         except _Ret as r:
-            return r.v
+            if not is_gen:
+                return r.v
         finally:
             self.depth -= 1
-        return None
+        # a generator function is run to its end and hands back the list of what it yields (its laziness is not modelled)
+        return frame.yields if is_gen else None
 
     def eval_default(self, fi: FuncInfo, d: ast.AST):
         """default values are evaluated ONCE per function (Python semantics): one object per analysed path"""
@@ -1232,7 +1274,9 @@ class Frame:
     st_ImportFrom = st_Import
 
     def st_FunctionDef(self, st):
-        self.env[st.name] = FuncRef(FuncInfo(st, self.module, None))
+        f = FuncRef(FuncInfo(st, self.module, None))
+        f.closure = self.env
+        self.env[st.name] = f
 
     def st_Global(self, st):
         pass
@@ -1569,7 +1613,24 @@ class Frame:
         return self.I.opaque("f-string", notnone=True)
 
     def ev_Lambda(self, n):
-        return self.I.opaque("lambda")
+        fd = ast.FunctionDef(name="<lambda>", args=n.args, body=[ast.Return(value=n.body)], decorator_list=[], returns=None, type_comment=None, type_params=[])
+        ast.copy_location(fd, n)
+        ast.fix_missing_locations(fd)
+        f = FuncRef(FuncInfo(fd, self.module, None))
+        f.closure = self.env
+        return f
+
+    def ev_Yield(self, n):
+        if not hasattr(self, "yields"):
+            raise Abort("yield outside a generator frame")
+        self.yields.append(self.ev(n.value) if n.value is not None else None)
+        return None
+
+    def ev_YieldFrom(self, n):
+        if not hasattr(self, "yields"):
+            raise Abort("yield outside a generator frame")
+        self.yields.extend(self.iterate(self.ev(n.value), n))
+        return None
 
     def ev_IfExp(self, n):
         t = self.ev(n.test)
